@@ -23,6 +23,10 @@ def run(ctx):
     repo = ctx.repo
     T = K.types(repo)
     ctx.each(r13a, ctx, repo)
+    # the value written into a parameter is the one the program set implies: the additive interaction relies on the cached order (largest effect relative to baseline first)
+    from .c12 import r12a
+
+    ctx.each(r12a, ctx, repo)
     ctx.each(r13b, ctx, repo)
     ctx.each(r13c, ctx, repo)
     ctx.rule("R06a", "limits applied after the program stage: see C06 (shared rule)")
@@ -90,7 +94,11 @@ def r13a(ctx, repo):
     for s_, t_, k_, v_ in astq.stores(up.node):
         if isinstance(t_, ast.Subscript) and astq.is_name(t_.value, cov_target) and k_ in ("assign", "aug"):
             vt = ast.unparse(v_)
-            ok = "get_prop_covered(" in vt or ("_program_cache['prop_coverage']" in vt)
+            # the stored value is the call (or the cached overwrite) itself: not one arm of a conditional expression, not a product with something else
+            v0 = v_
+            while isinstance(v0, ast.Subscript):
+                v0 = v0.value
+            ok = (isinstance(v0, ast.Call) and isinstance(v0.func, ast.Attribute) and v0.func.attr == "get_prop_covered") or (isinstance(v0, ast.Attribute) and v0.attr == "_program_cache" and "_program_cache['prop_coverage']" in vt)
             ctx.check(ok, "R13a", up, s_, "coverage comes from get_prop_covered / the precomputed overwrite", "update_pars sets a program's coverage to `%s` on a path of its own: the run then uses a coverage that Result.get_coverage (which always goes through get_prop_covered) does not report, e.g. when nobody is eligible" % vt[:70])
     rep = [c for c in own_nodes(gc.node) if isinstance(c, ast.Call) and isinstance(c.func, ast.Attribute) and c.func.attr == "get_prop_coverage"]
     ctx.require(len(rep) == 1, "R13a: Result.get_coverage does not call get_prop_coverage exactly once")
